@@ -63,11 +63,18 @@ func runC16(c core.Case) core.Result {
 		perUser := map[string]int{}
 		f := filter.Build(es)
 		misses := 0
-		for _, e := range es {
+		for i, e := range es {
 			u := e.Key[:lastAt(e.Key)]
 			perUser[u]++
 			if perUser[u] >= 2 {
 				multi = true
+			}
+			// lookups of non-members (whatever they answer) are interleaved with the member lookups:
+			// a filter is asked for many keys it never saw
+			if i%3 == 0 {
+				f.Contains(fmt.Sprintf("absent-%d-%d", i, r.Intn(1000)))
+				f.Contains(u + "@")
+				f.Contains(u[:len(u)-1])
 			}
 			if !f.Contains(u) {
 				misses++
@@ -104,6 +111,10 @@ func runC16(c core.Case) core.Result {
 		defer lv.Close()
 		examined, stages := 0, 0
 		check := func(v *originium.VerifLevels, stage string) {
+			// the read path asks every table's filter for keys it does not hold
+			for i := 0; i < 6; i++ {
+				v.Lookup(fmt.Sprintf("absent%d", r.Intn(100)), uint64(r.Intn(50)))
+			}
 			m, n := v.FilterMisses()
 			examined += n
 			stages++
